@@ -29,6 +29,7 @@ pub struct Em {
     pub stats: std::collections::BTreeMap<String, u64>,
     pub samples: Vec<String>,
     pub progress: Option<std::fs::File>,
+    pub watch: Arc<Mutex<(std::time::Instant, String, i64)>>,
 }
 impl Em {
     pub fn bump(&mut self, k: &str) { *self.stats.entry(k.to_string()).or_insert(0) += 1; }
@@ -37,8 +38,11 @@ impl Em {
     pub fn flush(&mut self) { if !self.o.buf.is_empty() { let _ = self.sink.write_all(self.o.buf.as_bytes()); self.o.buf.clear(); } }
     pub fn maybe_flush(&mut self) { if self.o.buf.len() > (1 << 20) { self.flush(); } }
     pub fn fail(&mut self, prop: &str, what: String) { if self.fails.len() < 50 { self.fails.push(format!("FAIL {} id={} {}", prop, self.id, what)); } self.bump("harness_fail"); }
+    /// tell the watchdog what is about to run (a case that does not return is reported with this text)
+    pub fn arm(&mut self, what: String) { if let Ok(mut g) = self.watch.lock() { *g = (std::time::Instant::now(), what, self.id); } }
     pub fn next_id(&mut self) -> bool {
         self.id += 1;
+        if let Ok(mut g) = self.watch.lock() { g.0 = std::time::Instant::now(); g.2 = self.id; g.1.clear(); }
         if let Some(f) = self.progress.as_mut() { if self.id % 64 == 0 { let _ = writeln!(f, "{}", self.id); } }
         match self.only { Some(k) => k == self.id, None => true }
     }
@@ -84,6 +88,7 @@ impl Em {
     pub fn probe(&mut self, pre: &Screen, op: &Op) {
         if !self.next_id() { return; }
         self.note_state(pre); self.note_op(op);
+        self.arm(format!("{}x{} cursor=({},{}) margins={:?} op={:?}", pre.columns, pre.lines, pre.cursor.x, pre.cursor.y, pre.margins.map(|m| (m.top, m.bottom)), op));
         let mut f = fork(pre);
         let opc = op.clone();
         let r = safe(move || { opc.apply(&mut f); f });
@@ -97,6 +102,7 @@ impl Em {
     pub fn probe_via_parser(&mut self, pre: &Screen, op: &Op, text: &str, utf8: bool) {
         if !self.next_id() { return; }
         self.note_state(pre); self.note_op(op);
+        self.arm(format!("{}x{} cursor=({},{}) via parser text={:?}", pre.columns, pre.lines, pre.cursor.x, pre.cursor.y, text));
         let f = fork(pre);
         let t = text.to_string();
         let r = safe(move || {
@@ -145,7 +151,22 @@ fn main() {
     std::panic::set_hook(Box::new(|_| {}));
     let sink: Box<dyn Write> = match out.as_deref() { None | Some("-") => Box::new(std::io::BufWriter::with_capacity(1 << 20, std::io::stdout())), Some(p) => Box::new(std::io::BufWriter::with_capacity(1 << 20, std::fs::File::create(p).unwrap())) };
     let progress = report.as_ref().map(|p| std::fs::File::create(format!("{}.progress", p)).unwrap());
-    let mut em = Em { o: Out::new(), sink, id: 0, only, nfc_seen: HashSet::new(), fails: vec![], stats: Default::default(), samples: vec![], progress };
+    let watch = Arc::new(Mutex::new((std::time::Instant::now(), String::new(), 0i64)));
+    {
+        // watchdog: a case that does not return within the limit is an input on which processing hangs
+        let w = watch.clone(); let rp = report.clone(); let limit = if tier == "thorough" { 60 } else { 20 };
+        let mode2 = mode.clone();
+        std::thread::spawn(move || loop {
+            std::thread::sleep(std::time::Duration::from_millis(250));
+            let (t0, what, id) = { let g = w.lock().unwrap(); (g.0, g.1.clone(), g.2) };
+            if t0.elapsed().as_secs() >= limit {
+                if let Some(p) = rp.as_ref() { if let Ok(mut f) = std::fs::OpenOptions::new().create(true).append(true).open(format!("{}.hang", p)) {
+                    let _ = writeln!(f, "FAIL C01 id={} processing did not return within {} s (plan {}): {}", id, limit, mode2, what); } }
+                std::process::exit(3);
+            }
+        });
+    }
+    let mut em = Em { o: Out::new(), sink, id: 0, only, nfc_seen: HashSet::new(), fails: vec![], stats: Default::default(), samples: vec![], progress, watch };
     em.oracle_tables();
     let mut rng = Rng::new(seed);
     let thorough = tier == "thorough";
